@@ -54,3 +54,51 @@ Ltac destr_lets :=
          end.
 Ltac destr_pairs :=
   repeat match goal with |- context [match ?x with (_, _) => _ end] => destruct x end.
+
+(* ---- PLAY: one part, and invariants carried through all parts ---- *)
+Lemma x_bind_ok {A B} (r : res A) (f : A -> res B) b : bind r f = Ok b -> exists a, r = Ok a /\ f a = Ok b.
+Proof. destruct r; cbn [bind]; try discriminate. intros H. eexists; split; [reflexivity|exact H]. Qed.
+
+Definition play_enter (s : song) (i : nat) (sp : Z) : song :=
+  upd_cur (change_cur_track s i) (fun t => tr_set_timepos t sp).
+Definition play_last (s3 : song) (last : Z) : Z :=
+  if tr_timepos (cur_track s3) >? last then tr_timepos (cur_track s3) else last.
+
+Lemma play_parts_cons ec ln sp a r i s last res :
+  play_parts ec ln sp (a :: r) i s last = Ok res ->
+  exists toks ls' s3,
+    lex (ls_of_song (play_enter s i sp)) (play_text a) ln = Ok (toks, ls') /\
+    ec toks (Ok (song_with_ls (play_enter s i sp) ls')) = Ok s3 /\
+    play_parts ec ln sp r (S i) s3 (play_last s3 last) = Ok res.
+Proof.
+  cbn [play_parts]. fold (play_enter s i sp). intros H.
+  apply x_bind_ok in H. destruct H as ([toks ls'] & L & H).
+  apply x_bind_ok in H. destruct H as (s3 & E & H).
+  exists toks, ls', s3. split; [exact L|]. split; [exact E|exact H].
+Qed.
+
+(* an invariant kept by entering a part (track numbers up to 999) and by lexing + executing a part is kept by PLAY's loop *)
+Lemma play_parts_inv (P : song -> Prop) ec ln sp :
+  (forall s i, (i <= 999)%nat -> P s -> P (play_enter s i sp)) ->
+  (forall s2 txt toks ls' s3, P s2 -> lex (ls_of_song s2) txt ln = Ok (toks, ls') ->
+     ec toks (Ok (song_with_ls s2 ls')) = Ok s3 -> P s3) ->
+  forall args i s last res, (i + length args <= 1000)%nat -> P s ->
+    play_parts ec ln sp args i s last = Ok res -> P (fst res).
+Proof.
+  intros Henter Hpart. induction args as [|a r IH]; intros i s last res Hb HP H.
+  - cbn [play_parts] in H. injection H as <-. exact HP.
+  - cbn [length] in Hb. apply play_parts_cons in H. destruct H as (toks & ls' & s3 & L & E & H).
+    apply (IH (S i) s3 (play_last s3 last) res); [lia| |exact H].
+    apply (Hpart _ _ _ _ _ (Henter s i ltac:(lia) HP) L E).
+Qed.
+
+Lemma exec_play_ok ec s args ln s' : exec_play ec s args ln = Ok s' ->
+  (zlen args <= 999) /\ (s_cur s <= 999)%nat /\
+  exists s4 last,
+    play_parts ec ln (tr_timepos (cur_track s)) args 1 s (tr_timepos (cur_track s)) = Ok (s4, last) /\
+    s' = change_cur_track (track_sync (upd_cur s4 (fun t => tr_set_timepos t last))) (s_cur s).
+Proof.
+  unfold exec_play. destruct (999 <? zlen args) eqn:E1; [discriminate|]. destruct (999 <? Z.of_nat (s_cur s)) eqn:E2; [discriminate|].
+  cbn [orb]. intros H. apply x_bind_ok in H. destruct H as ([s4 last] & Hp & H). injection H as <-.
+  split; [lia|]. split; [lia|]. exists s4, last. split; [exact Hp|reflexivity].
+Qed.
